@@ -42,6 +42,7 @@ KNOWN_CLASSES = [
      "expressions_as_statement:local-underscore-shadows-user-variable"),
     ("K2", ["remove_continue"], "remove_continue:repeat-until-condition-reads-body-local"),
     ("K10", ["convert_square_root_call"], "convert_square_root_call:negative-zero-or-negative-infinity"),
+    ("K11", ["remove_floor_division"], "remove_floor_division:operand-with-idiv-metamethod"),
 ]
 
 
